@@ -3,8 +3,8 @@
    _isotopes, ionset, the table attributes and the module namespace); [Inv] says the caches and
    the heap are inverse bijections; [shape s x k] says object x is live and its table, number,
    isotope number and charge are those of key k. *)
-From Coq Require Import ZArith String List Sorting.Sorted.
-From PT Require Import Py Core C08Check C08Proofs C08Sweep.
+From Coq Require Import ZArith String Ascii List Sorting.Sorted.
+From PT Require Import Str Py Core C08Check C08Proofs C08Sweep.
 From PT.Gen Require Import ElementBase.
 Import ListNotations.
 Open Scope string_scope.
@@ -87,8 +87,8 @@ Print Assumptions C08_by_module_attribute.
 
 Theorem C08_by_iso_string : forall eb s T str o, Inv eb s -> by_iso_string s T str = Ok o ->
   exists attr, alookup (snd (parse_iso_string str)) (attrs s T) = Some attr /\
-    ((fst (parse_iso_string str) = 0%Z /\ o = attr) \/
-     (fst (parse_iso_string str) <> 0%Z /\ hget s o = Some (OIsotope attr (fst (parse_iso_string str))))).
+    ((fst (parse_iso_string str) = None /\ o = attr) \/
+     (exists a, fst (parse_iso_string str) = Some a /\ hget s o = Some (OIsotope attr a))).
 Proof. exact by_iso_string_obj. Qed.
 Print Assumptions C08_by_iso_string.
 
@@ -208,10 +208,10 @@ Theorem C08_missing_isotope_raises : forall eb s x a T z n sy io, Inv eb s ->
 Proof. exact missing_isotope_raises. Qed.
 Print Assumptions C08_missing_isotope_raises.
 
-Theorem C08_missing_iso_string_raises : forall eb s T str e, Inv eb s ->
-  fst (parse_iso_string str) <> 0%Z ->
+Theorem C08_missing_iso_string_raises : forall eb s T str e a, Inv eb s ->
+  fst (parse_iso_string str) = Some a ->
   alookup (snd (parse_iso_string str)) (attrs s T) = Some e ->
-  (forall o, hget s o <> Some (OIsotope e (fst (parse_iso_string str)))) ->
+  (forall o, hget s o <> Some (OIsotope e a)) ->
   step s (ByIsoString T str) = (s, RErr ValueErr).
 Proof. exact missing_iso_string_raises. Qed.
 Print Assumptions C08_missing_iso_string_raises.
@@ -254,15 +254,21 @@ Theorem C08_change_table_key : forall eb s x k T s1 o, Inv eb s -> shape s x k -
 Proof. exact change_table_key. Qed.
 Print Assumptions C08_change_table_key.
 
-(* --- refuted at full strength: an accepted 'A-Sym' string does not always return an isotope:
-   isotope('0-H') returns the element H.  With a non-zero number it does (partial). *)
-Theorem C08_isotope_zero_refuted : ~ iso_string_names_isotope element_base.
-Proof. exact isotope_zero_refuted. Qed.
-Print Assumptions C08_isotope_zero_refuted.
+(* --- an accepted string with an isotope part returns that isotope (the number matches the key used);
+   '0-Sym' raises in every state reached without adding isotopes of non-positive mass number *)
+Theorem C08_iso_string_with_number : forall eb s T str o, Inv eb s -> contains_char "-"%char str = true ->
+  by_iso_string s T str = Ok o ->
+  exists e a, fst (parse_iso_string str) = Some a /\
+              alookup (snd (parse_iso_string str)) (attrs s T) = Some e /\
+              hget s o = Some (OIsotope e a).
+Proof. exact iso_string_with_number. Qed.
+Print Assumptions C08_iso_string_with_number.
 
-Theorem C08_iso_string_partial : forall s T str o, Inv element_base s -> by_iso_string s T str = Ok o ->
-  fst (parse_iso_string str) <> 0%Z ->
-  exists e, hget s o = Some (OIsotope e (fst (parse_iso_string str))) /\
-            alookup (snd (parse_iso_string str)) (attrs s T) = Some e.
-Proof. exact iso_string_partial. Qed.
-Print Assumptions C08_iso_string_partial.
+Theorem C08_isotope_string_names_isotope : iso_string_names_isotope element_base.
+Proof. exact isotope_string_names_isotope. Qed.
+Print Assumptions C08_isotope_string_names_isotope.
+
+Theorem C08_zero_iso_string_raises : forall ops T sym, Forall pos_op ops ->
+  let s := run the_init ops in step s (ByIsoString T ("0-" ++ sym)) = (s, RErr ValueErr).
+Proof. exact zero_iso_string_raises. Qed.
+Print Assumptions C08_zero_iso_string_raises.
